@@ -226,39 +226,9 @@ func runC19(e *Engine, r *Report) {
 			}
 		}
 	}
-	// ---- restore rebases the in-memory log on the snapshot alone: no cursor
-	// keeps (a function of) its previous value
-	if rs := r.need("(*internal/raft.inMemory).restore"); rs != nil {
-		isOldState := func(v ssa.Value) bool {
-			f, _, ok := loadedField(v)
-			if !ok {
-				return false
-			}
-			for i := 0; i < st.NumFields(); i++ {
-				if st.Field(i) == f {
-					return true
-				}
-			}
-			return false
-		}
-		cnt := 0
-		for _, fn := range []string{"markerIndex", "savedTo", "appliedToIndex", "appliedToTerm"} {
-			fld := e.Field("internal/raft", "inMemory", fn)
-			if fld == nil {
-				continue
-			}
-			for _, w := range e.FieldWrites(fld) {
-				if w.Fn != rs || w.Val == nil {
-					continue
-				}
-				cnt++
-				fromSS := e.dependsOn(w.Val, func(v ssa.Value) bool { p, ok := v.(*ssa.Parameter); return ok && p.Parent() == rs && p.Name() != "im" }, 0)
-				r.check(fromSS && !e.dependsOn(w.Val, isOldState, 0), "DEP-restore-rebase", "inMemory."+fn+" in restore is a function of the snapshot only", e.ipos(w.Instr),
-					"the cursor is rebased on the snapshot", "restore keeps (a function of) the previous "+fn+": a stale cursor survives the rebase, e.g. entries re-appended after the snapshot are considered saved/applied")
-			}
-		}
-		r.floor("DEP-restore-rebase", cnt, 4)
-	}
+	ruleRestoreRebase(e, r)
+	ruleLogReaderRebase(e, r)
+	ruleTermInMemFirst(e, r)
 }
 
 // blockReaches: is b reachable from a (a != b) in the CFG?
